@@ -6,18 +6,18 @@
 /// Check for `assertion`: "assertion failed: c.map(|x| x as u64) == if nl == 0 { None } else { Some(col - 1) }"
 
 #[test]
-fn kani_concrete_playback_c01_q_a1_arbitrary_5_10015431872960289434() {
+fn kani_concrete_playback_c01_q_a1_arbitrary_5_17417950613416933864() {
     let concrete_vals: Vec<Vec<u8>> = vec![
-        // 89
-        vec![89],
-        // 113
-        vec![113],
-        // 112
-        vec![112],
-        // 112
-        vec![112],
+        // 104
+        vec![104],
+        // 57
+        vec![57],
         // 56
         vec![56],
+        // 56
+        vec![56],
+        // 48
+        vec![48],
     ];
     kani::concrete_playback_run(concrete_vals, c01_q_a1_arbitrary_5);
 }
@@ -27,18 +27,18 @@ fn kani_concrete_playback_c01_q_a1_arbitrary_5_10015431872960289434() {
 /// Check for `cover`: "end"
 
 #[test]
-fn kani_concrete_playback_c01_q_a1_arbitrary_5_9189490425505970382() {
+fn kani_concrete_playback_c01_q_a1_arbitrary_5_14070241828109596603() {
     let concrete_vals: Vec<Vec<u8>> = vec![
-        // 72
-        vec![72],
-        // 82
-        vec![82],
-        // 76
-        vec![76],
-        // 51
-        vec![51],
+        // 89
+        vec![89],
         // 50
         vec![50],
+        // 50
+        vec![50],
+        // 50
+        vec![50],
+        // 48
+        vec![48],
     ];
     kani::concrete_playback_run(concrete_vals, c01_q_a1_arbitrary_5);
 }
